@@ -125,8 +125,6 @@ def handleC14 : List String → Option String
     let a := showExcept (fun _ => "-") (rawChunksToChunks cs >>= Superrun.continuityCheck)
     let b := showExcept (fun _ => "-") (rawChunksToChunks cs >>= Strax.continuityCheck)
     pure (if a == b then a else s!"models-disagree {a} / {b}")
-  | "c14.rechunk" :: rest => handleC07 ("rechunk" :: rest)
-  | "c14.csplit" :: rest => handleC07 ("csplit" :: rest)
   | "c14.splitruns" :: rest => handleC07 ("splitruns" :: rest)
   | _ => none
 
